@@ -23,6 +23,7 @@ func init() { register("C16", "model_checking", checkC16) }
 type cliInv struct {
 	Sub, Format, File, Target, Doc, Stdout            string
 	Massive, DryRun, Strict, Stray, Unknown, MTimeout bool
+	Watch                                             bool
 	Exts                                              []string
 }
 
@@ -41,6 +42,7 @@ func cliInvOf(v tla.Value) cliInv {
 		Stdout: tla.S(r["stdout"]), Massive: tla.B(r["massive"]), DryRun: tla.B(r["dryrun"]), Strict: tla.B(r["strict"]), Stray: tla.B(r["stray"]), Unknown: tla.B(r["unknown"])}
 	inv.Exts = tla.StrsOfSet(r["exts"])
 	inv.MTimeout = tla.B(r["mtimeout"])
+	inv.Watch = tla.B(r["watch"])
 	return inv
 }
 
@@ -65,6 +67,9 @@ func (inv cliInv) argv() []string {
 	}
 	if inv.MTimeout {
 		a = append(a, "--massive-timeout", "1ns")
+	}
+	if inv.Watch {
+		a = append(a, "--watch")
 	}
 	switch inv.File {
 	case "dash":
@@ -267,7 +272,108 @@ func checkC16(r *evid.Run) {
 	}
 	templatePipe(r, bin)
 	r.Set("exhaustive", true)
-	r.Set("rule", "every invocation of the bounded flag space (output/mkdir/verify/template x --format {none,json,yaml,toml,bad} x --massive x --file {stdin,-,existing,missing} x --dry-run x -e x --target-dir x --strict x stray argument x unknown flag) x document class (well-formed, malformed, empty, a name with '/') x stdout (pipe, closed, /dev/full), run as the real binary in a jail; plus every sequence of up to 3 mkdir/verify/dry-run invocations over one directory; non-trivial = the library is reached")
+	r.Set("rule", "every invocation of the bounded flag space (output/mkdir/verify/template x --format {none,json,yaml,toml,bad} x --massive x --file {stdin,-,existing,missing} x --dry-run x -e x --target-dir x --strict x stray argument x unknown flag) x document class (well-formed, malformed, empty, a name with '/') x stdout (pipe, closed, /dev/full), run as the real binary in a jail; output --watch (renders, keeps running, renders again when the file changes); plus every sequence of up to 3 mkdir/verify/dry-run invocations over one directory; non-trivial = the library is reached")
+}
+
+// lockedBuf: stdout of a process that is still running
+type lockedBuf struct {
+	mu sync.Mutex
+	b  bytes.Buffer
+}
+
+func (l *lockedBuf) Write(p []byte) (int, error) {
+	l.mu.Lock()
+	defer l.mu.Unlock()
+	return l.b.Write(p)
+}
+
+func (l *lockedBuf) String() string {
+	l.mu.Lock()
+	defer l.mu.Unlock()
+	return l.b.String()
+}
+
+// checkWatch: output --watch --file in.md renders the file, keeps running, renders it again when it has changed
+// (each rendering followed by an empty line), never exits by itself. What it prints is what the library writes.
+func checkWatch(r *evid.Run, bin string, pool *wproto.Pool, inv cliInv, dir string) {
+	desc := "gtree " + strings.Join(inv.argv(), " ") + " <" + inv.Doc
+	os.WriteFile(filepath.Join(dir, "in.md"), []byte(cliDocs[inv.Doc]), 0o644)
+	cmd := exec.Command(bin, inv.argv()...)
+	cmd.Dir = dir
+	cmd.Env = append(os.Environ(), "NO_COLOR=1")
+	so, se := &lockedBuf{}, &lockedBuf{}
+	cmd.Stdout, cmd.Stderr = so, se
+	if err := cmd.Start(); err != nil {
+		r.Broken("cannot start %s: %v", desc, err)
+		return
+	}
+	done := make(chan struct{})
+	go func() { cmd.Wait(); close(done) }()
+	defer func() { cmd.Process.Kill(); <-done }()
+	r.Count("real_calls", 1)
+	libOf := func(doc string) string {
+		rq := wproto.Req{Op: "output", Doc: doc, Format: inv.Format, Massive: inv.Massive}
+		r.Count("real_calls", 1)
+		return pool.Call(rq, 30*time.Second).Out
+	}
+	norm := func(s string) string {
+		if inv.Massive {
+			return sortedLines(s)
+		}
+		return s
+	}
+	// waitFor: stdout reaches the expected text (the verdict is the text, the deadline only bounds the wait)
+	late := false
+	waitFor := func(want string) (string, bool) {
+		deadline := time.Now().Add(20 * time.Second)
+		for {
+			got := so.String()
+			if len(got) >= len(want) || time.Now().After(deadline) {
+				late = len(got) < len(want)
+				time.Sleep(150 * time.Millisecond) // anything printed beyond it?
+				return so.String(), true
+			}
+			select {
+			case <-done:
+				return so.String(), false
+			case <-time.After(20 * time.Millisecond):
+			}
+		}
+	}
+	rec := func(got string) map[string]any {
+		return map[string]any{"argv": inv.argv(), "file": cliDocs[inv.Doc], "stdout": got, "stderr": se.String()}
+	}
+	first := libOf(cliDocs[inv.Doc]) + "\n"
+	got, running := waitFor(first)
+	if !running {
+		r.Mismatch("cli:watch:exits", fmt.Sprintf("%s: the process ended by itself (stdout=%q stderr=%q)", desc, got, firstLine(se.String())), rec(got))
+		return
+	}
+	if late {
+		r.Broken("%s: nothing complete on stdout 20 s after the start (%q): no verdict", desc, got)
+		return
+	}
+	if norm(got) != norm(first) {
+		r.Mismatch("cli:watch:stdout-differs-from-library", fmt.Sprintf("%s: first rendering cli=%q library(+empty line)=%q", desc, got, first), rec(got))
+		return
+	}
+	// the file changes: one more rendering, of the new content
+	doc2 := "- z\n  - y\n"
+	time.Sleep(20 * time.Millisecond)
+	os.WriteFile(filepath.Join(dir, "in.md"), []byte(doc2), 0o644)
+	second := libOf(doc2) + "\n"
+	got, running = waitFor(first + second)
+	if !running {
+		r.Mismatch("cli:watch:exits", fmt.Sprintf("%s: the process ended by itself after the file changed (stdout=%q stderr=%q)", desc, got, firstLine(se.String())), rec(got))
+		return
+	}
+	if late {
+		r.Broken("%s: no second rendering 20 s after the file changed (%q): no verdict", desc, got)
+		return
+	}
+	if !strings.HasPrefix(got, first) && !inv.Massive || norm(strings.TrimPrefix(got, got[:min(len(got), len(first))])) != norm(second) {
+		r.Mismatch("cli:watch:second-rendering-differs", fmt.Sprintf("%s: after the file changed cli printed %q, want %q then %q", desc, got, first, second), rec(got))
+	}
 }
 
 func checkCLIState(r *evid.Run, bin string, pool *wproto.Pool, s *cliState) {
@@ -277,6 +383,11 @@ func checkCLIState(r *evid.Run, bin string, pool *wproto.Pool, s *cliState) {
 		return
 	}
 	defer os.RemoveAll(dir)
+	if s.Why == "watching" {
+		r.Count("distinct_nontrivial", 1)
+		checkWatch(r, bin, pool, s.Hist[len(s.Hist)-1], dir)
+		return
+	}
 	var run cliRun
 	var before []string
 	for i, inv := range s.Hist {
